@@ -343,9 +343,9 @@ def case_models(ctx, rng):
 
 
 def run(ctx):
-    for _, rng in ctx.cases("elements", ctx.n(900, 20000)):
+    for _, rng in ctx.cases("elements", ctx.budget(14000, 250000)):
         ctx.run_case(case_elements, ctx, rng)
-    for _, rng in ctx.cases("map-laws", ctx.n(240, 5000)):
+    for _, rng in ctx.cases("map-laws", ctx.budget(3800, 60000)):
         ctx.run_case(case_maplaws, ctx, rng)
-    for _, rng in ctx.cases("models", ctx.n(500, 6000)):
+    for _, rng in ctx.cases("models", ctx.budget(8000, 120000)):
         ctx.run_case(case_models, ctx, rng)
